@@ -613,6 +613,11 @@ def check(P, R, tier):
     check_units(P, R, tu, blocks)
     check_readonly(P, R, tu)
     check_widen(P, R)
+    # the years / months / weeks a format asks for come from the calendar differences: decoded over their whole domain
+    import diffdecode
+    dtu = P.tu("libdut_a-date-core.o")
+    n = diffdecode.check_yd(R, dtu, "RF2-diff") + diffdecode.check_ymd(R, dtu, "RF2-diff") + diffdecode.check_ywd(R, dtu, "RF2-diff")
+    R.floor("RF2-diff", "decoded points of the year/day, year/month/day and year/week/day differences", n, 3000000)
 
 
 LEVEL = ("Decides the refinement rule structurally for all durations and all subsets of week / day / hour / minute / second: the "
@@ -620,7 +625,8 @@ LEVEL = ("Decides the refinement rule structurally for all durations and all sub
          "components recombine to the total; interval analysis partitioned by the request flags proves every refined component "
          "inside [0, coarser/own - 1] for each of the 16 flag combinations; the constants are the seconds of the unit whose "
          "specifier requests and prints that component; the print loop does not modify the components and writes one sign; "
-         "day-count products are 64-bit.  The split of months into years / quarters and the value of the difference itself are "
-         "not decided here.")
+         "day-count products are 64-bit.  The components of formats that ask for years, months or weeks with days come from the "
+         "calendar differences, which are decoded over their whole domain (RF2-diff): years/months/weeks + days recombine to the "
+         "later date.  The split of months into years / quarters is not decided here.")
 RULE = "obligation = one cascade block, one (flag combination, component) range, one specifier agreement, one write / sign / product site"
 ASSUME = ["dt_dtdiff delivers the difference as days + seconds (C05)", "the leap second correction is attributed to the seconds slot only"]
